@@ -8,6 +8,17 @@ from .model import AnalysisError, ClassInfo, FunctionInfo
 from .values import EMPTY, NOCONST, Guard, Obj, Val, join, join_all
 from .interp import Frame, CONTAINER_CLS, MAX_DEPTH
 
+def keys_deps(deps):
+    """A value computed from the *keys* of a container depends on its key set, not on the values stored in it."""
+    out = set()
+    for d in deps:
+        if isinstance(d, tuple) and len(d) == 2 and isinstance(d[0], int):
+            out.add(("keysof",) + d)
+        else:
+            out.add(d)
+    return frozenset(out)
+
+
 PARALLEL_NAMES = {"joblib.Parallel", "joblib.parallel.Parallel"}
 DELAYED_NAMES = {"joblib.delayed", "joblib.parallel.delayed"}
 DEEPCOPY_NAMES = {"copy.deepcopy"}
@@ -406,6 +417,7 @@ class CallMixin:
                 pair = self._pairs_of(src)
                 if pair is not None:
                     o = self.new_container("dict", node, elem=pair[1], keys=pair[0])
+                    self.adopt(o.oid, "[*]", pair[1], force=True)
                     return Val(refs=[o.oid], deps=deps, tags=tags)
             if not src.aliases():
                 o = self.new_container(spec.get("cls"), node, elem=Val(deps=src.deps))
@@ -417,8 +429,9 @@ class CallMixin:
             for r in first.refs:
                 if self.obj(r).keys is not None:
                     ks.append(self.obj(r).keys)
-            o = self.new_container("list", node, elem=join_all(ks).add_deps(deps) if ks else Val(deps=deps))
-            return Val(refs=[o.oid], deps=deps, tags=["keys"], extra=("keysof", first))
+            kdeps = keys_deps(deps)
+            o = self.new_container("list", node, elem=join_all(ks).with_(deps=kdeps) if ks else Val(deps=kdeps))
+            return Val(refs=[o.oid], deps=kdeps, tags=["keys"], extra=("keysof", first))
         if ret == "items0":
             ks = [self.obj(r).keys for r in first.refs if self.obj(r).keys is not None]
             kv = join_all(ks).add_deps(deps) if ks else Val(deps=deps)
